@@ -5,7 +5,7 @@ import random
 from chx.domain import wf
 from chx.ob import BOOL, CP, PR, R, U, ob
 from harness.shims import ADHOC_SHIMS, ADHOC_SHIMS_DOC
-from harness.skeletons import SKELETONS, hole_is_name
+from harness.skeletons import EXTRA_SKELETONS, SKELETONS, hole_is_name
 
 SEED = int(os.environ.get("VERIF_SEED", "0") or 0)
 FUNCS = ["cdd.shared.docstring_parsers.parse_docstring", "cdd.shared.docstring_parsers._scan_phase_rest",
@@ -60,13 +60,15 @@ def _pert(doc, pos, mode):
 
 
 _ALL = []
-for _style, _doc in SKELETONS.items():
+for _style, _doc in list(SKELETONS.items()) + list(EXTRA_SKELETONS.items()):
     for _pos in range(len(_doc) + 1):
         for _mode in ("ins", "sub"):
             if _mode == "sub" and _pos >= len(_doc):
                 continue
             _ALL.append((_style, _pos, _mode, _doc))
 _QUICK = set(random.Random(SEED).sample(range(len(_ALL)), 48))
+# the unperturbed-shape representatives of the extra skeletons are always in the quick tier (one hole at the very end)
+_QUICK |= {i for i, (st, pos, mode, doc) in enumerate(_ALL) if st in EXTRA_SKELETONS and mode == "ins" and pos == len(doc)}
 for _i, (_style, _pos, _mode, _doc) in enumerate(_ALL):
     _q = _i in _QUICK
     if not _q and _mode != "ins":
